@@ -76,7 +76,9 @@ UnitNames == {UnitTable[i].name : i \in DOMAIN UnitTable}
 UnitRow(n) == UnitTable[CHOOSE i \in DOMAIN UnitTable : UnitTable[i].name = n]
 Atomic(n) == UnitRow(n).dim \notin {"one", "compound"}
 
-Regs == {"default", "custom", "customcgs"}
+\* customrm: the custom registry from which built-in symbols were REMOVED (t; rad, which has alias spellings and prefixed
+\* forms) and one was removed and re-added with another dimension and prefixability (bar)
+Regs == {"default", "custom", "customcgs", "customrm"}
 Classes == {"quantity", "array", "unit"}
 
 PickleProtocols == {"pickle2", "pickle3", "pickle4", "pickle5"}
@@ -94,7 +96,8 @@ PClass(p) == CASE p \in PickleProtocols \cup {"pickle_nested", "pickle_withunit"
 \* the follow-up battery, in the (fixed) order it is applied; each follow-up pair starts from empty process-wide memos
 FupSeq == << "sin", "cos", "tan", "mul_self", "div_self", "square", "mul_scalar", "div_scalar", "add_self", "sub_self",
              "add_orig", "radd_orig", "sub_orig", "rsub_orig", "mul_orig", "eq_orig", "lt_orig", "ueq_orig", "hash_orig",
-             "diff", "ptp", "in_base", "in_cgs", "in_mks", "in_code", "base_equiv_code", "to_custom", "convert_custom", "to_value",
+             "diff", "ptp", "in_base", "in_cgs", "in_mks", "in_code", "base_equiv_code", "construct_t", "construct_rad",
+             "construct_radian", "construct_mrad", "construct_bar", "construct_mbar", "contains_removed", "to_radian", "to_custom", "convert_custom", "to_value",
              "prefix_construct", "custom_construct", "umul_self", "upow2", "umul_m", "udiv_orig", "is_dimensionless",
              "same_dims", "base_equiv", "cgs_equiv", "conv_factor", "list_same", "num_times_unit", "qty_times_unit",
              "str_unit", "latex" >>
@@ -123,7 +126,7 @@ NoObj == [cls |-> "", reg |-> "", unit |-> "", pre |-> "", memo |-> ""]
 NoSt == [alive |-> FALSE, cls |-> "", ident |-> "na", regnew |-> FALSE, usys |-> "", lutkept |-> TRUE, idkept |-> TRUE, dimshared |-> TRUE, lutmixed |-> FALSE, key |-> "", unitkept |-> TRUE]
 Init == phase = "new" /\ obj = NoObj /\ chain = <<>> /\ st = NoSt /\ fups = <<>> /\ order = ""
 
-Available(r, u) == UnitRow(u).cust => r # "default"
+Available(r, u) == (UnitRow(u).cust => r # "default") /\ (r = "customrm" => u # "rad")
 OrigUsys(r) == IF r = "customcgs" THEN "cgs" ELSE "mks"
 
 Build(c, r, u, pre, memo) ==
@@ -153,13 +156,15 @@ DerivedRow == {"km", "kpfoo", "dB"}
 \* re-parsing the unit string in the object's current registry: the dimension object is the row's.  After a deep copy of
 \* the registry (lutmixed) the rows of the library's own symbols were overwritten with the defaults (singletons), user
 \* rows and derived rows are copies
-Rescale(s, o) == [s EXCEPT !.unitkept = s.unitkept /\ (s.lutkept \/ o.unit # "mile" \/ o.reg = "default")]
+\* (before repository fix 24fb26f a deep copy lost the re-valued mile and a later re-parse changed the unit's scale; no
+\* path loses a modification today, so re-parsing keeps the scale)
+Rescale(s, o) == s
 Reparse(s, u) == IF s.lutmixed /\ s.ident # "na"
                  THEN [s EXCEPT !.ident = IF UnitRow(u).cust \/ u \in DerivedRow THEN "copy" ELSE "singleton", !.dimshared = FALSE]
                  ELSE [s EXCEPT !.dimshared = IF s.lutmixed THEN s.dimshared ELSE TRUE]
 \* the new registry's string memo holds the unit under str(expr) (Unit.copy put it there); str(unit) is that spelling
 \* unless it carries a degree sign
-MemoHit(s, row) == ~row.deg /\ ((s.lutmixed /\ s.key = "expr") \/ s.key = "poison")
+MemoHit(s, row) == FALSE    \* (before fix 852a543 Unit.copy() memoised the unit it re-created; nothing does today)
 PathEffect(p, s, o) ==
   LET row == UnitRow(o.unit)
       u == o.unit
@@ -172,8 +177,11 @@ PathEffect(p, s, o) ==
          ELSE IF p = "pickle_withunit" /\ s.unitkept /\ ~Rescale(s, o).unitkept
               THEN Dead(s)   \* the pickled Unit object keeps its scale, the array's unit string is re-parsed in the reverted table: they disagree
          ELSE \* the new registry computes its id from the table as it is now: not the original's memoised one when that went stale
-              [Rescale(s, o) EXCEPT !.ident = Lose(s.ident, u), !.regnew = TRUE, !.usys = "mks", !.dimshared = TRUE, !.lutmixed = FALSE, !.key = "none",
-                                    !.idkept = s.idkept /\ o.pre = "idlast"]
+              \* _correct_old_unit_registry fills in every built-in symbol the pickled table lacks: removed symbols reappear
+              [Rescale(s, o) EXCEPT !.ident = Lose(s.ident, u), !.regnew = TRUE, !.usys = "mks", !.key = "none",
+                                    !.idkept = s.idkept /\ o.pre = "idlast" /\ o.reg # "customrm", !.lutkept = s.lutkept /\ o.reg # "customrm",
+                                    \* (the filled-in rows hold the library's singletons, the unpickled ones copies)
+                                    !.dimshared = ~(o.reg = "customrm" /\ row.dim = "angle" /\ s.lutkept), !.lutmixed = (o.reg = "customrm" /\ s.lutkept)]
     [] c \in {"deepcopy", "unitdeep"} ->
          \* Unit.copy(deep=True): deepcopy(dimensions) + deepcopy(registry) = type(registry)(lut=deepcopy(lut),
          \* add_default_symbols=False, unit_system=registry.unit_system) (since repository fix 24fb26f: table and unit system
@@ -184,13 +192,12 @@ PathEffect(p, s, o) ==
          \* copy.copy / ndarray-level copies keep the unit object; Unit.copy() re-creates Unit(str(expr), ..., deepcopy(dimensions),
          \* copy(registry)) and only gets the memoised original back when the string memo holds that spelling
          IF p = "dot_copy" /\ s.cls = "unit" /\ (s.key = "cold" \/ (s.key = "str" /\ row.deg))
-         THEN \* ... and the re-created unit (deep-copied dimensions) is put into the string memo the copied registry shares
-              \* with the original: later Unit(str(expr), registry) calls get THAT unit ("poison")
-              [s EXCEPT !.ident = Lose(s.ident, u), !.dimshared = IF s.ident \in {"copy", "na"} THEN s.dimshared ELSE FALSE,
-                        !.key = IF s.key = "cold" THEN "poison" ELSE s.key]
+         THEN \* (since repository fix 852a543 the re-created unit is NOT put into the string memo: later look-ups of the
+              \* same string are parsed from the table again)
+              [s EXCEPT !.ident = Lose(s.ident, u), !.dimshared = IF s.ident \in {"copy", "na"} THEN s.dimshared ELSE FALSE]
          ELSE s
     [] c = "strrt" -> IF MemoHit(s, row) THEN s ELSE [Reparse(Rescale(s, o), u) EXCEPT !.key = IF s.key = "expr" THEN "expr" ELSE "str"]
-    [] c = "json" -> [Rescale(s, o) EXCEPT !.ident = Regain(s.ident), !.regnew = TRUE, !.usys = "mks", !.idkept = FALSE, !.dimshared = TRUE, !.lutmixed = FALSE, !.key = "str"]
+    [] c = "json" -> [Rescale([s EXCEPT !.lutkept = s.lutkept /\ o.reg # "customrm"], o) EXCEPT !.ident = Regain(s.ident), !.regnew = TRUE, !.usys = "mks", !.idkept = FALSE, !.dimshared = TRUE, !.lutmixed = FALSE, !.key = "str"]
     [] c = "string" -> IF row.deg THEN Dead(s) ELSE IF MemoHit(s, row) THEN s ELSE [Reparse(Rescale(s, o), u) EXCEPT !.key = "str"]
     [] OTHER -> \* savetxt/loadtxt: re-parse in the default registry
                 [s EXCEPT !.ident = Regain(s.ident), !.regnew = TRUE, !.cls = "array", !.usys = "mks", !.dimshared = TRUE, !.lutmixed = FALSE,
@@ -229,10 +236,17 @@ ScaleFups == {"add_orig", "add_self", "convert_custom", "diff", "div_scalar", "e
               "mul_self", "num_times_unit", "ptp", "qty_times_unit", "radd_orig", "rsub_orig", "square", "sub_orig", "sub_self", "to_custom",
               "to_value", "udiv_orig", "ueq_orig", "umul_m", "umul_self", "upow2"}
 
+\* follow-ups that name a removed symbol (directly, through an alias, a prefixed form, or as the base unit of a system)
+RmFups == {"construct_t", "construct_rad", "construct_radian", "construct_mrad", "contains_removed"}
+\* ... and, for angles, everything that needs rad (the base unit of the angle dimension in every unit system; the target of
+\* the angle-aware trigonometry): the original refuses, an object whose registry got rad back returns
+AngleRmFups == {"sin", "cos", "tan", "to_radian", "in_base", "in_cgs", "in_mks", "base_equiv", "cgs_equiv"}
 RestSame(f, o, s, ord) ==
   ~ \/ s.ident = "copy" /\ IdentGuard(f, o.unit) /\ ~(MemoValue(f, o.unit) /\ ord = "of" /\ s.idkept)
                         /\ ~(f = "diff" /\ s.cls = "quantity")          \* np.diff of a 0-d quantity is refused either way
-    \/ ~s.lutkept /\ f \in {"custom_construct"}
+    \/ ~s.lutkept /\ o.reg # "customrm" /\ f \in {"custom_construct"}
+    \/ ~s.lutkept /\ o.reg = "customrm" /\ f \in RmFups
+    \/ ~s.lutkept /\ o.reg = "customrm" /\ UnitRow(o.unit).dim = "angle" /\ f \in AngleRmFups
     \/ ~s.unitkept /\ f \in ScaleFups /\ ~(f = "diff" /\ s.cls = "quantity")
     \/ s.usys # OrigUsys(o.reg) /\ f \in {"in_base", "base_equiv"} /\ UnitRow(o.unit).dim \in {"length", "compound"}
     \/ o.reg # "default" /\ ~s.idkept /\ f \in {"in_code", "base_equiv_code", "hash_orig"}
